@@ -521,6 +521,25 @@ func (env *CEnv) bin(e *CE) Term {
 
 // strCat builds a right-nested concatenation (associativity by normalisation: no string theory needed).
 func strCat(a, b string) string {
+	// literal folding: "" is the unit, adjacent literals merge
+	if ta, ok := litText[a]; ok {
+		if ta == "" {
+			return b
+		}
+		if tb, ok := litText[b]; ok && litWorld != nil {
+			return litWorld.strLit(ta + tb)
+		}
+		if strings.HasPrefix(b, "(str_cat strlit!") && litWorld != nil {
+			toks := sexpTokens(b)
+			if tb, ok := litText[toks[2]]; ok {
+				rest := joinToks(toks[3 : len(toks)-1])
+				return "(str_cat " + litWorld.strLit(ta+tb) + " " + rest + ")"
+			}
+		}
+	}
+	if tb, ok := litText[b]; ok && tb == "" {
+		return a
+	}
 	if strings.HasPrefix(a, "(str_cat ") {
 		toks := sexpTokens(a)
 		// (str_cat X Y): split X and Y
